@@ -121,7 +121,22 @@ claim(
     "DESIGN.md 5/C19",
 )
 
-NA["C03"] = (
+claim(
+    "C03",
+    "proof",
+    "Narrow (mechanism 4 of 5 only: operator precedence climbing in the expression parser). Unbounded proof (Verus, on the text of parse/value.rs and common.rs extracted by span on every run): "
+    "BinaryOp::precedence equals the language's precedence table (= ; or ; and ; == != ; < <= > >= ; + - ; * / %); the operator stack of the expression parser keeps, across resolve_one_operation, "
+    "resolve_operations and add_operator, the invariant that pending operators are strictly increasing in precedence from bottom to top with exactly one waiting left operand each - so an operator of "
+    "equal or higher precedence is always reduced before a new one is pushed (precedence and left associativity), every pop/unwrap on the two stacks is safe, and resolve_operations terminates with an "
+    "empty stack. NOT covered: everything else the statement lists - variables and scoping (evaluate/scope.rs keeps Values behind Arc<RefCell<BTreeMap>>: outside Verus, and dropping a Value ICEs Kani), "
+    "control flow, argument binding, and/or short-circuit, string concatenation, the slash-as-division rule, and what the evaluator does with the parsed tree (all Visitor code).",
+    V_TRUST + " Assumed, discharged nowhere: parse_single_expression does not touch the operator stack of its caller (nested expressions use a fresh ValueParser) and keeps the lexer well-formed; "
+    "AST node construction replaced by opaque constructors (R19); the four Option-idiom rewrites R20/R21 (each turns into a proof obligation).",
+    "Verus data-structure invariant on the expression parser's operator stack",
+    "DESIGN.md 10.5",
+)
+
+NA_C03_REMOVED = (
     "scoping/control flow live in Visitor methods (Kani cannot construct a Visitor: ICE on HashMap/Lazy); the function-shaped part (evaluate/scope.rs) stores Values in "
     "Arc<RefCell<BTreeMap<Identifier,Value>>>: RefCell/Arc<RefCell> are outside Verus, and under Kani dropping a Value reaches HashMap drop glue (kani-compiler ICE, measured) while BTreeMap "
     "operations do not finish in CBMC (measured on css_tree.rs: > 10 min for 3 insertions) (DESIGN 5/C03)"
